@@ -697,14 +697,42 @@ func c08Try(f func() string) (out string) {
 
 // c08NextTokenGuarded: nextToken under recover (pn = the panic value, "" if none)
 func c08NextTokenGuarded(b []byte) (id int, v []byte, pn string) {
-	defer func() {
-		if p := recover(); p != nil {
-			pn = c08Norm(fmt.Sprint(p))
-		}
+	type res struct {
+		id int
+		v  []byte
+		pn string
+	}
+	if c08ScannerHung {
+		return 0, nil, "HANG (not called again: the tokenizer did not return on an earlier input)"
+	}
+	ch := make(chan res, 1)
+	go func() {
+		var o res
+		defer func() {
+			if p := recover(); p != nil {
+				o.pn = c08Norm(fmt.Sprint(p))
+			}
+			ch <- o
+		}()
+		o.id, o.v = syntax.VerifNextToken(b)
 	}()
-	id, v = syntax.VerifNextToken(b)
-	return id, v, ""
+	t := time.NewTimer(c08ScanDeadline)
+	defer t.Stop()
+	select {
+	case o := <-ch:
+		return o.id, o.v, o.pn
+	case <-t.C:
+		c08ScannerHung = true
+		return 0, nil, "HANG: nextToken did not return within " + c08ScanDeadline.String()
+	}
 }
+
+// The real tokenizer runs in this process; a call that does not return cannot be stopped, only
+// abandoned (its goroutine keeps spinning until the harness exits).  After the first such call the
+// tokenizer is not called again by the token-level phases.
+var c08ScannerHung bool
+
+const c08ScanDeadline = 10 * time.Second
 
 func optHexGo(b []byte) string {
 	if b == nil {
@@ -1114,6 +1142,11 @@ func c08Tokens(c *Ctx) {
 		}
 		if len(b) > 0 && (b[0] == '-' || (b[0] >= '0' && b[0] <= '9')) {
 			id, v, pn := c08NextTokenGuarded(b)
+			if strings.HasPrefix(pn, "HANG") {
+				r.violate(Violation{Kind: "property", Key: "C08:hang:nextToken", What: "nextToken does not terminate: " + pn,
+					Input: strconv.Quote(s), Impl: pn, Expect: "a token or INVALID", Broken: "Props.C08.lexer_progress_full"})
+				continue
+			}
 			if pn != "" {
 				r.violate(Violation{Kind: "property", Key: "C08:panic:nextToken",
 					What:  "nextToken (the tokenizer, before any grammar action) panics on a numeric-looking head: " + pn,
